@@ -69,7 +69,13 @@ def finish (d : DS) (c : Conn) (res : String) : DS × String :=
             let q := if c.sm.queue.isEmpty then "-" else ",".intercalate (c.sm.queue.map fun e => toString e.1.toNat)
             s!" sm {bt c.sm.support}{bt c.sm.enabled}{bt c.sm.canResume}{bt c.sm.resume}{bt c.sm.rSent} s{c.sm.sentNr.toNat} h{c.sm.handledNr.toNat} q{q}"
           else " sm none"
-        s!"st {stLetter c} neg {bt c.negotiated} sec {bt (isSecured c)} q {c.queue.length}{smPart} sid {hexOpt c.streamId}"
+        -- `xmpp_conn_send_queue_len`: the user's elements in the queue, without the one being written
+        let isUser (e : QElem) : Bool := match e.owner with | .user => true | _ => false
+        let ul := (c.queue.filter isUser).length
+        let ql := match c.queue with
+          | e :: _ => if e.wip && isUser e then ul - 1 else ul
+          | [] => ul
+        s!"st {stLetter c} neg {bt c.negotiated} sec {bt (isSecured c)} q {c.queue.length}{smPart} sid {hexOpt c.streamId} ql {ql}"
     -- an event outside the parser protocol (hypothesis H-parser-protocol) shows as a disagreement
     let res := if c.protoViol ≠ 0 then s!"PARSER-PROTOCOL-VIOLATED {res}" else res
     ({ d with c := { c with tx := [], evs := [], protoViol := 0 }, pend := [] }, s!"= {res} | tx {tx} | ev {ev} | {tail}")
